@@ -185,20 +185,27 @@ def family_cases(fam, ty, tier, seed):
             add([rnd.loguniform(1e-2, kmax)])
     elif fam == 'student_t':
         kmax = 1e6 if ty == 'f64' else 1e4
-        for k in straddle(1.0, ty) + straddle(2.0, ty) + [0.1, 0.5, 3.0, 5.0, 30.0, 1e3, kmax]:
-            add([k], ('law', 'c03', 'switch'))
+        # lower bound: the law's own mass beyond MAX (tail ~ x^-nu) must be < 2^-64
+        kmin = 0.2 if ty == 'f64' else 1.5
+        for k in straddle(1.0, ty) + straddle(2.0, ty) + [kmin, 0.5, 3.0, 5.0, 30.0, 1e3, kmax]:
+            if k >= kmin:
+                add([k], ('law', 'c03', 'switch'))
         for _ in range(R // 2):
-            add([rnd.loguniform(1e-1, kmax)])
+            add([rnd.loguniform(kmin, kmax)])
     elif fam == 'fisher_f':
+        # denominator dof lower bound: the law's own mass beyond MAX (tail ~ x^(-n/2)) must be < 2^-64
+        nmin = 0.2 if ty == 'f64' else 1.5
         pts = [0.1, 1.0, 2.0, 5.0, 100.0, 1e4]
         for m in pts:
-            for n in pts:
-                if th or (m, n) in [(1.0, 1.0), (2.0, 2.0), (1.0, 5.0), (5.0, 1.0), (0.1, 100.0), (100.0, 0.1), (1e4, 1e4), (5.0, 2.0), (2.0, 0.1)]:
+            for n in [nmin] + pts[1:]:
+                if n < nmin:
+                    continue
+                if th or (m, n) in [(1.0, 1.0), (2.0, 2.0), (1.0, 5.0), (5.0, 1.0), (0.1, 100.0), (100.0, nmin), (1e4, 1e4), (5.0, 2.0), (2.0, nmin)]:
                     add([m, n], ('law', 'c03', 'switch'))
         for m, n in [(nxt(1.0, ty, 1), 3.0), (nxt(1.0, ty, -1), 3.0), (3.0, nxt(2.0, ty, -1)), (3.0, nxt(2.0, ty, 1))]:
             add([m, n], ('law', 'c03', 'switch'))
         for _ in range(R // 2):
-            add([rnd.loguniform(0.1, 1e4), rnd.loguniform(0.1, 1e4)])
+            add([rnd.loguniform(0.1, 1e4), rnd.loguniform(nmin, 1e4)])
     elif fam == 'beta':
         lo, hi = (1e-3, 1e5) if ty == 'f64' else (1e-2, 1e4)
         one = straddle(1.0, ty)[:3]
@@ -233,7 +240,8 @@ def family_cases(fam, ty, tier, seed):
             mx = mn + rnd.loguniform(1e-3, 1e3)
             add([mn, mx, rnd.uniform(mn, mx)])
     elif fam == 'cauchy':
-        for m, s in [(0.0, 1.0), (2.0, 0.5), (-1e6, 3.0), (big, 1.0), (0.0, tiny), (0.0, big), (1.0, 1e-3), (-7.0, 100.0)]:
+        # scale * tan(pi/2 rounded) ~ scale * 1.6e16 (f64) / 2.3e7 (f32) must stay finite
+        for m, s in [(0.0, 1.0), (2.0, 0.5), (-1e6, 3.0), (big, 1.0), (0.0, tiny), (0.0, big / 1e20), (1.0, 1e-3), (-7.0, 100.0)]:
             add([m, s])
         for _ in range(R // 3):
             add([rnd.uniform(-1e3, 1e3), rnd.loguniform(1e-3, 1e3)])
@@ -259,7 +267,8 @@ def family_cases(fam, ty, tier, seed):
         for _ in range(R // 3):
             add([rnd.uniform(-1e3, 1e3), rnd.loguniform(1e-3, 1e3)])
     elif fam == 'frechet':
-        amin = 0.05 if ty == 'f64' else 0.2
+        # both extreme draws must stay representable: (-ln(1 - 2^-53))^(-1/alpha) < MAX  <=>  alpha > 0.052
+        amin = 0.06 if ty == 'f64' else 0.2
         for l, s, a in [(0.0, 1.0, 1.0), (0.0, 1.0, 2.0), (0.0, 1.0, amin), (0.0, 1.0, 1e3), (2.0, 0.5, 3.0), (-1e6, 3.0, 1.0), (0.0, tiny, 1.0),
                         (1.0, 1e-3, 0.5), (-7.0, 100.0, 10.0), (0.0, 1.0, 1.0 / 3.0), (0.0, 1.0, 0.2), (5.0, 2.0, 0.5)]:
             add([l, s, a])
@@ -382,7 +391,7 @@ def discrete_u_cases(fam, tier, seed):
     elif fam == 'hypergeometric':
         for N, K, n in [(100, 50, 50), (100, 50, 49), (101, 50, 50), (101, 51, 50), (1000, 20, 500), (1000, 980, 500), (1000, 500, 20), (1000, 500, 980),
                         (10 ** 4, 5000, 5000), (10 ** 4, 300, 7000), (10 ** 6, 10 ** 5, 10 ** 3), (10 ** 6, 500000, 500000), (2 ** 40, 2 ** 39, 2 ** 20), (2 ** 40, 2 ** 39, 2 ** 39), (2 ** 40, 1000, 2 ** 39),
-                        (2 ** 30, 2 ** 20, 2 ** 20), (60, 30, 30), (60, 25, 35), (45, 22, 23), (200, 22, 100), (200, 20, 100), (200, 18, 100), (500, 250, 250), (10 ** 5, 300, 300), (10 ** 5, 200, 50000),
+                        (2 ** 30, 2 ** 20, 2 ** 20), (60, 30, 30), (60, 25, 35), (45, 22, 23), (200, 22, 100), (200, 20, 100), (200, 18, 100), (500, 250, 250), (10 ** 4, 30, 300), (10 ** 5, 200, 50000),
                         (10, 5, 5), (40, 20, 20), (41, 20, 21), (20, 0, 10), (20, 20, 10), (20, 10, 0), (20, 10, 20), (1, 1, 1), (0, 0, 0)]:
             add([N, K, n], ('law', 'c03', 'switch'))
         for _ in range(R):
